@@ -105,16 +105,18 @@ class Run:
         gosum = os.path.join(REPO, "go.sum")
         if os.path.exists(gosum):
             shutil.copy(gosum, os.path.join(hdir, "go.sum"))
-        cmd = ["go", "build", "-tags", "verif"] + (["-race"] if race else []) + ["-o", out, "./cmd/lz"]
+        cmd = ["go", "build", "-tags", "verif"] + (["-race"] if race else [])
         env = dict(GOENV)
         if REPO != "/repo":
-            # development only: point the replace directive somewhere else
-            sh(["go", "mod", "edit", "-replace", "github.com/6tail/lunar-go=" + REPO], cwd=hdir, env=env)
-        try:
-            p = sh(cmd, cwd=hdir, env=env, timeout=600, check=False)
-        finally:
-            if REPO != "/repo":
-                sh(["go", "mod", "edit", "-replace", "github.com/6tail/lunar-go=/repo"], cwd=hdir, env=env)
+            # development only (bin/seedtest): build against another checkout without touching harness/go.mod
+            mf = os.path.join(bindir, "alt.mod")
+            txt = open(os.path.join(hdir, "go.mod"), encoding="utf-8").read().replace("=> /repo", "=> " + REPO)
+            open(mf, "w", encoding="utf-8").write(txt)
+            if os.path.exists(gosum):
+                shutil.copy(gosum, os.path.join(bindir, "alt.sum"))
+            cmd += ["-modfile", mf]
+        cmd += ["-o", out, "./cmd/lz"]
+        p = sh(cmd, cwd=hdir, env=env, timeout=600, check=False)
         if p.returncode != 0:
             raise Infra("harness does not build against %s:\n%s" % (REPO, p.stdout[-4000:]))
         if race:
